@@ -14,6 +14,7 @@
 package fschannel
 
 import (
+	"bytes"
 	"fmt"
 	"os"
 	"time"
@@ -62,7 +63,18 @@ func (f *rotateFile) rotate() error {
 
 	now := time.Now()
 
-	if err := os.Rename(f.path, fmt.Sprintf("%s.%s", f.path, now.Format("20060102150405"))); err != nil {
+	// the timestamp has a resolution of one second: never overwrite an
+	// earlier rotated file of the same second
+	target := fmt.Sprintf("%s.%s", f.path, now.Format("20060102150405"))
+	for i := 1; ; i++ {
+		if _, err := os.Stat(target); os.IsNotExist(err) {
+			break
+		}
+
+		target = fmt.Sprintf("%s.%s.%d", f.path, now.Format("20060102150405"), i)
+	}
+
+	if err := os.Rename(f.path, target); err != nil {
 		return err
 	}
 
@@ -92,32 +104,51 @@ func (f *rotateFile) Write(p []byte) (int, error) {
 
 	written := 0
 
+	// p holds complete lines. As long as it does not fit in what is left of
+	// the current file: write the lines that do fit, rotate, continue with
+	// the rest. Lines are never split, and a line that is larger than the
+	// maximum size gets a file of its own.
 	for f.pos+int64(len(p)) > f.maxSize {
-		j := f.maxSize - int64(f.pos)
+		room := f.maxSize - f.pos
+		if room < 0 {
+			room = 0
+		}
 
-		for ; j > 0; j-- {
-			// line endings windows?
-			if p[j] == '\n' {
-				break
+		// end of the last line that still fits
+		j := bytes.LastIndexByte(p[:room], '\n')
+
+		if j < 0 && f.pos > 0 {
+			// not even the first line fits: start a new file for it
+			if err := f.rotate(); err != nil {
+				return written, err
+			}
+
+			continue
+		}
+
+		if j < 0 {
+			// the file is empty and the first line is larger than the maximum size
+			j = bytes.IndexByte(p, '\n')
+			if j < 0 {
+				j = len(p) - 1
 			}
 		}
 
-		n, err := f.f.Write(p[:j])
-		if err != nil {
-			return n, err
-		}
-
+		n, err := f.f.Write(p[:j+1])
 		written += n
-
-		// rotate
-		if err := f.rotate(); err != nil {
+		f.pos += int64(n)
+		if err != nil {
 			return written, err
 		}
 
-		// skip \n
-		written += 1
-
 		p = p[j+1:]
+		if len(p) == 0 {
+			return written, nil
+		}
+
+		if err := f.rotate(); err != nil {
+			return written, err
+		}
 	}
 
 	n, err := f.f.Write(p)
